@@ -186,7 +186,11 @@ func H_C14_roundtrip_keys() {
 		x := Apology{Eon: vfU64("eon"), Sender: vfAny[common.Address]("sender"), Accusers: vfAddrs("accuser", vfParam("list", 2))}
 		n := vfLen("nevals", vfParam("list", 2))
 		for i := 0; i < n; i++ {
-			x.PolyEval = append(x.PolyEval, new(big.Int).SetUint64(vfU64("eval")))
+			// evaluations are whatever non-negative integer the sender put into the transaction
+			// (the application does not range-check them): up to the 320 bits of the big.Int model
+			ev := vfBig("eval")
+			vfAssume(ev.Sign() >= 0)
+			x.PolyEval = append(x.PolyEval, ev)
 		}
 		y, err := MakeEvent(x.MakeABCIEvent(), h)
 		vfAssert(err == nil, "apology-decodes")
